@@ -286,8 +286,11 @@ func replayC07(o *Obligation) (string, string, string, bool) {
 	src := `package kvstore_test
 
 import (
+	"encoding/binary"
 	"errors"
+	"sync/atomic"
 	"testing"
+	"time"
 
 	"github.com/iotaledger/hive.go/kvstore"
 	"github.com/iotaledger/hive.go/kvstore/mapdb"
@@ -311,14 +314,14 @@ func (f *faulty) Set(k kvstore.Key, v kvstore.Value) error {
 // new one), F = the next store write fails
 func TestVerifReplay(t *testing.T) {
 	scripts := []string{"NNNCN", "NCRCN", "NNRNCN", "CRCN", "NNNRCRN", "NCNRNCRCNN", "NNNNNNCNRCN", "RNCRN",
-		"FNNNCN", "NNNFNNNCN", "NFRNCN", "NNFRNCNN", "FNFNNRCN"}
+		"FNNNCN", "NNNFNNNCN", "NFRNCN", "NNFRNCNN", "FNFNNRCN", "NNNFRRCN", "NFRRN"}
 	for _, interval := range []uint64{1, 3, 10} {
 		for _, sc := range scripts {
 			store := &faulty{KVStore: mapdb.NewMapDB()}
 			seen := map[uint64]bool{}
 			seq, _ := kvstore.NewSequence(store, []byte("k"), interval)
 			var last uint64
-			first := true
+			first, ownLast := true, false
 			for i, op := range sc {
 				switch op {
 				case 'N':
@@ -329,17 +332,64 @@ func TestVerifReplay(t *testing.T) {
 					if seen[v] || (!first && v <= last) {
 						t.Fatalf("REPLAY-VIOLATION Sequence handed out %d twice / not increasing (script %s step %d, interval %d)", v, sc, i, interval)
 					}
-					seen[v], last, first = true, v, false
+					seen[v], last, first, ownLast = true, v, false, true
 				case 'R':
-					_ = seq.Release()
+					if err := seq.Release(); err == nil && ownLast {
+						// a clean Release wastes nothing: the stored mark is the next number to hand out
+						raw, gerr := store.KVStore.Get([]byte("k"))
+						if gerr != nil || len(raw) < 8 || binary.BigEndian.Uint64(raw) != last+1 {
+							t.Fatalf("REPLAY-VIOLATION Release returned nil but the stored mark is % x (%v), the next number is %d (script %s step %d, interval %d)", raw, gerr, last+1, sc, i, interval)
+						}
+					}
 				case 'F':
 					store.failSet = true
 				case 'C':
 					seq, _ = kvstore.NewSequence(store, []byte("k"), interval)
+					ownLast = false
 				}
 			}
 		}
 	}
+	// Release racing with Next on the same object: Release's store write is held back; a Next that gets through in the
+	// meantime (it can only if Release writes outside the mutex) must not end up above the mark Release then stores
+	{
+		hs := &holding{KVStore: mapdb.NewMapDB(), entered: make(chan struct{}), release: make(chan struct{})}
+		seq, _ := kvstore.NewSequence(hs, []byte("k"), 10)
+		v0, _ := seq.Next()
+		hs.armed.Store(true)
+		relDone, nextDone := make(chan struct{}), make(chan uint64, 1)
+		go func() { _ = seq.Release(); close(relDone) }()
+		<-hs.entered
+		go func() { v, _ := seq.Next(); nextDone <- v }()
+		var got uint64
+		select {
+		case got = <-nextDone: // only possible when Release does not hold the mutex while writing
+			close(hs.release)
+		case <-time.After(300 * time.Millisecond):
+			close(hs.release)
+			got = <-nextDone
+		}
+		<-relDone
+		raw, _ := hs.KVStore.Get([]byte("k"))
+		if len(raw) >= 8 && binary.BigEndian.Uint64(raw) <= got {
+			t.Fatalf("REPLAY-VIOLATION Release racing with Next: numbers %d and %d were handed out, the stored mark is %d: a restart hands out %d again", v0, got, binary.BigEndian.Uint64(raw), got)
+		}
+	}
+}
+
+// holding holds back the next Set (once) when armed
+type holding struct {
+	kvstore.KVStore
+	armed            atomic.Bool
+	entered, release chan struct{}
+}
+
+func (h *holding) Set(k kvstore.Key, v kvstore.Value) error {
+	if h.armed.CompareAndSwap(true, false) {
+		close(h.entered)
+		<-h.release
+	}
+	return h.KVStore.Set(k, v)
 }
 `
 	return "kvstore", ".", src, true
